@@ -95,7 +95,16 @@ func oneLogin(r *core.Run) {
 		}
 		b := []byte(s)
 		x := []byte{' ', '%', '\t', '0', '\\', 0x7f}[c.Intn(6)]
-		switch c.Pick(6, 1, 1, 1) {
+		switch c.Pick(6, 1, 1, 1, 1) {
+		case 4:
+			// a value that came out of a configuration file with its quotes still on
+			if len(b) >= 2 {
+				q := []byte{'"', '`', '\''}[c.Intn(3)]
+				b[0], b[len(b)-1] = q, q
+				if q == '\'' && len(b) > 3 {
+					b = b[:3]
+				}
+			}
 		case 1:
 			b[len(b)-1] = x
 		case 2:
